@@ -10,6 +10,8 @@ CONSTANTS
   MinUnits = 0
   MaxDepth = 1
   MaxActs = 1
+  MaxNL = 0
+  MaxLines = 1
   Signs = {"-", "+"}
   AllowCall = TRUE
   AllowList = TRUE
